@@ -460,7 +460,7 @@ resp0_ctx_recv(void *arg, nni_aio *aio)
 	memcpy(ctx->btrace, nni_msg_header(msg), len);
 	ctx->btrace_len = len;
 	ctx->pipe_id    = p->id;
-	if (ctx == &s->ctx) {
+	if ((ctx == &s->ctx) && (!p->busy)) {
 		nni_pollable_raise(&s->writable);
 	}
 	nni_mtx_unlock(&s->mtx);
